@@ -3,6 +3,7 @@
 package route
 
 import (
+	"crypto/tls"
 	"net"
 	"net/http"
 	"net/url"
@@ -218,3 +219,5 @@ func VPH_C12_auth() {
 		vp.Assert(!got, "unknown-scheme-rejects")
 	}
 }
+
+func vpTLSState() *tls.ConnectionState { return &tls.ConnectionState{} }
